@@ -104,9 +104,14 @@ def run_write(path, fmtname, game, writer, fail_at=None, internal=None, j=1, no_
         wcls = Raising
     elif internal == 'writer-unparseable':
         class Garbage(lua.LuaEchoWriter):
+            # (unparsable only with the argument it is given: the check of the written code has to use the writer AND its arguments)
             def to_lines(self):
-                yield b'x = = "unterminated\n'
-        wcls, wargs = Garbage, {}
+                if (self._args or {}).get('garbage'):
+                    yield b'x = = "unterminated\n'
+                else:
+                    for chunk in super().to_lines():
+                        yield chunk
+        wcls, wargs = Garbage, {'garbage': True}
     elif internal == 'section-raises':
         o = gfx.Gfx.to_lines
 
